@@ -46,6 +46,8 @@ def cases(tier, seed):
             g.update(bf=1, base=[5, 6, 7] if i % 20 == 3 else [7, 3, 9], maxsz=3, nlevels=1 + (i // 10) % 2)
             g.pop("base_blocks", None)
             g.pop("full_refine", None)
+        if i % 6 == 2:      # the same geometry in micrometres / nanometres: cells tiny in absolute terms
+            g["length_scale"] = [1e-6, 1e-9][(i // 6) % 2]
         if i % 4 == 1:      # far from the origin: coordinate / cell size of 1e5 .. 1e7 (coordinates in other units)
             g["origin"] = [rng.choice([1.0e5, -3.0e5, 2.5e6]) for _ in range(3)]
         for n in range(3):      # one case per normal: the 4-level plotfiles are the long poles
@@ -70,7 +72,8 @@ def judge(m, vol, n, pos, L, fl, o1, o2, ref):
     shapeT = (m.grid_sizes[L][cy], m.grid_sizes[L][cx])
     lo0 = m.geo_low[n] + m.dx[0][n] / 2
     hi0 = m.geo_high[n] - m.dx[0][n] / 2
-    inside0 = lo0 - 1e-12 <= pos <= hi0 + 1e-12
+    eps_n = 1e-9 * m.dx[L][n] + 8 * 2.220446049250313e-16 * max(abs(m.geo_low[n]), abs(m.geo_high[n]))     # scale aware
+    inside0 = lo0 - eps_n <= pos <= hi0 + eps_n
     for nm in want:
         if nm not in o1:
             probs.append(f"field {nm} missing"); continue
@@ -123,7 +126,7 @@ def judge(m, vol, n, pos, L, fl, o1, o2, ref):
     for ax, d in (("x", cx), ("y", cy)):
         exp = m.geo_low[d] + (np.arange(m.grid_sizes[L][d]) + 0.5) * m.dx[L][d]
         g = np.asarray(o1.get(ax))
-        if g.shape != exp.shape or not np.allclose(g, exp, rtol=1e-12, atol=1e-12 * max(1.0, np.abs(exp).max())):
+        if g.shape != exp.shape or not np.allclose(g, exp, rtol=1e-12, atol=1e-9 * float(np.min(np.abs(np.diff(exp)))) if exp.size > 1 else 1e-300):
             probs.append(f"{ax} coordinates are not the cell centres of the level-{L} grid")
     return probs, int(dec.sum()), int((~dec).sum())
 
@@ -188,7 +191,7 @@ def run_case(case, work, rec):
             o_def = Mandoline(path, fields=["rnd"], serial=True, verbose=0).slice(normal=n, fformat="return")
             o_exp = Mandoline(path, fields=["rnd"], serial=True, verbose=0).slice(normal=n, pos=centre, fformat="return")
             rec.count("default_position")
-            if abs(float(o_def["slice_pos"]) - centre) > 1e-12 * max(1.0, abs(centre)):
+            if abs(float(o_def["slice_pos"]) - centre) > 1e-9 * m.dx[0][n] + 8 * 2.220446049250313e-16 * abs(centre):
                 rec.violation(f"default position is {o_def['slice_pos']!r}, the domain centre is {centre!r} (normal {'xyz'[n]})",
                               key=key, witness={"geo_low": m.geo_low[n], "geo_high": m.geo_high[n]})
             elif not refparse.biteq(o_def["rnd"], o_exp["rnd"]):
@@ -218,7 +221,7 @@ def run_case(case, work, rec):
             fl = rng.choice([["rnd", "grid_level"], ["a" + "xyz"[n], "tagx"], ["all"]])
             serial = rng.random() < 0.5
             out = os.path.join(work, "cli_slice")
-            args = ["mandoline", "-n", str(n), "-p", repr(pos), "-v"] + fl + ["-f", "array", "-o", out, "-V", "0"]
+            args = ["mandoline", "-n", str(n), "--position=" + repr(pos), "-v"] + fl + ["-f", "array", "-o", out, "-V", "0"]
             if limit is not None:
                 args += ["-L", str(limit)]
             if serial:
